@@ -42,6 +42,60 @@ def build(tier):
     return obs
 
 
+RECEIVER = ("def p(ch):\n    n = 0\n    while n < 2:\n        try:\n            x = ch.receive(None)\n            G.items = G.items + 1\n"
+            "        except EOFError:\n            G.eofs = G.eofs + 1\n        n = n + 1\n    G.done_{k} = 1\n")
+
+
+def sc_blocked_receivers(nreceivers=2, nitems=1, end="close", waitclose=True):
+    """several user threads blocked in receive() (and one in waitclose()) while the receiver thread delivers the last
+    items and the close: every item goes to exactly one receiver, every other receive raises EOFError, nobody stays blocked"""
+    import z3
+
+    from vlib import e2
+    from vlib.py2ts import INT0
+
+    sc = e2.ChannelScenario(f"blocked_receivers[{nreceivers},{nitems},{end},wc={waitclose}]", prequeued=0, nevents=2)
+    names = list(sc.ITEMS[:nitems])
+    body = ""
+    for n in names:
+        body += f"    with gw._receivelock:\n        f._local_receive(1, {n})\n"
+    endcall = {"close": "f._local_close(1)", "eof": "gw._thread_receiver()"}[end]
+    body += f"    {endcall}\n" if end == "eof" else f"    with gw._receivelock:\n        {endcall}\n"
+    sc.add("receiver", f"def p({', '.join(['gw', 'f'] + names)}):\n" + body + "    G.recv_done = 1\n", ["gw", "f"] + names)
+    for k in range(nreceivers):
+        sc.add(f"user{k}", RECEIVER.replace("{k}", str(k)), ["ch"])
+        sc.bad.append(("blocked", f"user{k}"))
+        sc.good_flags.append(f"done_{k}")
+        sc.observed.append(f"done_{k}")
+    if waitclose:
+        src = "def p(ch):\n    try:\n        ch.waitclose(None)\n    except EOFError:\n        G.wc_eof = 1\n    G.wc = 1\n"
+        sc.add("waiter", src, ["ch"])
+        sc.bad.append(("blocked", "waiter"))
+        sc.good_flags.append("wc")
+        sc.observed.append("wc")
+    total = 2 * nreceivers
+    sc.bad += [
+        ("custom", "items_lost_or_duplicated", lambda enc, K: z3.And(z3.Not(enc.can_move(K)), enc.var(K, "G.items") != INT0 + nitems), lambda g, d, b: g.get("items", 0) != nitems),
+        ("custom", "receive_after_end_did_not_raise_eof", lambda enc, K: z3.And(z3.Not(enc.can_move(K)), enc.var(K, "G.eofs") != INT0 + total - nitems), lambda g, d, b: g.get("eofs", 0) != total - nitems),
+        ("blocked", "receiver"),
+    ]
+    sc.observed += ["items", "eofs", "recv_done"]
+    sc.good_flags.append("recv_done")
+    sc.model.var("G.items", INT0)
+    sc.model.var("G.eofs", INT0)
+    return sc.finish()
+
+
+def e2_specs(tier):
+    thorough = tier == "thorough"
+    combos = [(2, 1, "close", True), (2, 0, "close", False), (2, 1, "eof", False)]
+    if thorough:
+        combos += [(2, 2, "close", True), (3, 1, "close", False), (2, 1, "eof", True)]
+    return [{"module": "props.c03", "factory": "sc_blocked_receivers", "args": {"nreceivers": r, "nitems": i, "end": e, "waitclose": w}, "K": 0,
+             "name": f"blocked_receivers[{r},{i},{e},wc={w}]", "timeout": 3000 if thorough else 600, "validate": 3, "depth_probes": 200, "sync_granularity": not thorough and r * 2 + i > 4}
+            for r, i, e, w in combos]
+
+
 def signature(o, cex, detail):
     return f"C03:{o.meta['cause']}:{detail.split(':')[0]}"
 
@@ -50,7 +104,10 @@ def run(tier: str) -> Outcome:
     fns = describe_functions([gb.Channel.close, gb.Channel.__del__, gb.Channel.waitclose, gb.Channel.receive, gb.Channel.send, gb.Channel.isclosed,
                                gb.ChannelFactory._local_close, gb.ChannelFactory._no_longer_opened, gb.WorkerGateway.executetask,
                                gb.Message._channel_close, gb.BaseGateway._thread_receiver])
-    return e1.run_e1(
+    from vlib import e2run
+
+    e2out = e2run.outcome_from("C03", tier, e2run.run_scenarios(e2_specs(tier)), fns, [], "", [], "", "C03")
+    out = e1.run_e1(
         "C03", tier, build(tier), signature, fns,
         stubs=[
             "two real gateways over Popen2IO/PipeFile (closing side A, peer B); B's receiver thread body runs synchronously on what A wrote",
@@ -59,13 +116,25 @@ def run(tier: str) -> Outcome:
         ],
         bounds=("0 and 2 (thorough 0-3) items, then the channel is closed explicitly / by the end of the remote_exec (normal end or EOFError; incl. a refused explicit close from inside) / explicitly after the peer went send-only / by "
                 "dropping the last reference; item values and sibling-channel traffic symbolic; 1-3 receive() calls after the end (symbolic); symbolic chunking of the first read"),
-        outside=["several receivers blocked concurrently in receive() while the close arrives (ENDMARKER re-queue under real threads): schedule part, not decided here",
+        outside=["more than 3 concurrently blocked receivers",
                  "a dropped channel that had a callback (CHANNEL_LAST_MESSAGE leaves the peer send-only by design)", "GC timing other than refcount-immediate"],
         explanation=("bounded symbolic execution of the close protocol on both sides: data frames precede exactly one close frame; the peer receives all items in "
                      "order, then EOFError on every further receive, waitclose returns, send raises OSError, isclosed; the closing side likewise; a second "
-                     "close writes nothing; the sibling channel is untouched"),
+                     "close writes nothing; the sibling channel is untouched; E2 (bounded model checking): 2 (thorough 3) user threads blocked in receive() and one in "
+                     "waitclose() race the receiver thread delivering the last item and the close / the connection loss - in every schedule each item is received "
+                     "exactly once, every other receive raises EOFError (the ENDMARKER is re-queued for the next receiver), waitclose returns, nobody stays blocked"),
     )
+    e2run.merge_into(out, e2out, "e2_blocked_receivers",
+                     "E2 part: queue.Queue = FIFO with blocking get, channel/callback tables = finite maps, loads_internal = identity; handlers run under gateway._receivelock")
+    return out
 
 
 def replay(rep):
+    if rep.get("engine") == "E2":
+        from vlib import e2run
+
+        sc = sc_blocked_receivers(**rep["scenario"]["args"])
+        ghost, done, blocked, sched = sc.replay([tuple(x) for x in rep["order"]], mode=rep.get("mode", "sync"))
+        hits = e2run.real_bad(sc.bad, ghost, done, blocked)
+        return bool(hits) and not sched.diverged, f"hits={hits} ghost={ghost} blocked={blocked} diverged={sched.diverged}"
     return e1.replay_entry(rep)
